@@ -55,6 +55,7 @@ import (
 const (
 	nPool   = 6
 	nClaim  = 4    // pending claims prepared for executeClaim
+	nBadClm = 2    // pending claims that cannot be executed (more FX than the bridge module holds), nonces claim0+nClaim…
 	claim0  = 7001 // event nonce of the first prepared claim
 	resTx   = 10   // resource id of pool tx k of pool i: resTx*i + k + 1
 	resClm  = 100  // resource id of claim k: resClm + k
@@ -232,6 +233,15 @@ func setup(t *testing.T, out *hx.Out) *env {
 	for k := 0; k < nClaim; k++ {
 		s.App.EthKeeper.SavePendingExecuteClaim(s.Ctx, &crosschaintypes.MsgSendToFxClaim{
 			EventNonce: uint64(claim0 + k), BlockHeight: 100, TokenContract: fxExternal, Amount: sdkmath.NewInt(int64(5000 + k)),
+			Sender: helpers.GenExternalAddr(ethtypes.ModuleName), Receiver: sdk.AccAddress(helpers.GenHexAddress().Bytes()).String(),
+			BridgerAddress: sdk.AccAddress(helpers.GenHexAddress().Bytes()).String(), ChainName: ethtypes.ModuleName,
+		})
+	}
+	// claims that are pending but cannot execute: more FX than the bridge module holds (the keeper fails after it has
+	// already deleted the pending entry — a late failure inside the native action); a failed attempt leaves them pending
+	for k := 0; k < nBadClm; k++ {
+		s.App.EthKeeper.SavePendingExecuteClaim(s.Ctx, &crosschaintypes.MsgSendToFxClaim{
+			EventNonce: uint64(claim0 + nClaim + k), BlockHeight: 100, TokenContract: fxExternal, Amount: big18(1_000_000_000),
 			Sender: helpers.GenExternalAddr(ethtypes.ModuleName), Receiver: sdk.AccAddress(helpers.GenHexAddress().Bytes()).String(),
 			BridgerAddress: sdk.AccAddress(helpers.GenHexAddress().Bytes()).String(), ChainName: ethtypes.ModuleName,
 		})
@@ -856,7 +866,7 @@ func TestC09(t *testing.T) {
 	}()
 	e := setup(t, out)
 	e.cnt = out.Count
-	nProg := hx.N(400, 2000)
+	nProg := hx.N(300, 2000)
 	debug := os.Getenv("VERIF_DEBUG") != ""
 	dir := e.directed(rand.New(rand.NewSource(seed ^ 0x5eed)))
 	dir = append(dir, e.directCalls(rand.New(rand.NewSource(seed^0xd1ec)))...)
@@ -952,6 +962,11 @@ func TestC09(t *testing.T) {
 					if !trc.tr.Kept(i) {
 						dropped++
 						dm = append(dm, p.meta[n.ID].method)
+					}
+					// a call whose keeper part cannot succeed on this input (unknown validator, more than the caller holds, a claim
+					// that cannot execute, an unknown pool transaction, …) must fail AS A CALL: no success flag, no log, no kept frame
+					if mt := p.meta[n.ID]; mt.mode == "fail" && e.writer[mt.method] && n.Kind == evmx.KCall {
+						out.Violate(fmt.Sprintf("a precompile call whose native action cannot succeed returned success: %s (input class %s) came back without an error, so the EVM keeps a frame whose Cosmos-side effects do not exist (frame kept by the transaction: %v, precompile logs in the receipt: %d)", mt.method, mt.variant, trc.tr.Kept(i), real.nPreLog))
 					}
 				} else if trc.tr.Frames[i].Gas >= e.reqGas[p.meta[n.ID].method] && e.writer[p.meta[n.ID].method] && n.Kind == evmx.KCall {
 					out.Count("failed-after-RequiredGas:" + p.meta[n.ID].variant + ":" + strings.SplitN(p.meta[n.ID].mode, ":", 2)[0])
